@@ -204,6 +204,7 @@ def unit_sets(tier):
         yield "tree(SPLIT11,3)", list(B.tree(SPLIT11, 3)), base[:1] + [("-storage", "-greedy")]
         yield "vocabulary-family", families.vocabulary_family(), base
         yield "opt:vocabulary-family", [("opt", b) for b in families.vocabulary_family()], base[:1]
+        yield "opt:cse-family/2", [("opt", b) for b in families.cse_family()[::2]], base[:1]
         yield "opt:consume-family/2", [("opt", b) for b in list(families.consume_family())[::2]], base[:1]
         yield "opt:rule-family(1)/8", [("opt", b) for b in list(families.rule_family(1))[3::8]], base[:1]
     else:
@@ -213,6 +214,7 @@ def unit_sets(tier):
         yield "tree(SPLIT11,4)", list(B.tree(SPLIT11, 4)), allc
         yield "vocabulary-family", families.vocabulary_family(), allc
         yield "opt:vocabulary-family", [("opt", b) for b in families.vocabulary_family()], allc
+        yield "opt:cse-family", [("opt", b) for b in families.cse_family()], base
         yield "opt:consume-family", [("opt", b) for b in families.consume_family()], base[:1] + allc[2:]
         yield "opt:rule-family(1)", [("opt", b) for b in families.rule_family(1)], base[:1]
         yield "opt:mem-family(2)", [("opt", b) for b in families.mem_family(2)], base[:1]
